@@ -1275,4 +1275,130 @@ theorem reduce_update_dicts (h0 : Heap) (c : String) (hc : (c == "Acc") = false)
         | _ => simp [ho] at h
     | _ => simp [dictsOf] at h
 
+/-! ### whole programs -/
+
+theorem WF_parts {env : Env} (hwf : WF env = true) :
+    regLookup env.foldCatch "UnregisteredTarget" = some "FoldError" ∧
+    iterHandlerOf env "chain" true = some "iter" ∧
+    env.excTable.isSub "FoldError" "GlomError" = true := by
+  simp only [WF, Bool.and_eq_true, beq_iff_eq] at hwf
+  exact ⟨hwf.1.1.1.1.2, hwf.2, hwf.1.1.1.2⟩
+
+theorem observeAll_errors (env : Env) (n0 : Nat) (hfin : Heap) (e : Err) :
+    ∀ (targets : List Val) (earlier : List (Except Err Val)),
+      observeAll env n0 hfin earlier (targets.map (fun _ => (Except.error e : Except Err Val))) =
+        targets.map (fun _ => errR env e) := by
+  intro targets
+  induction targets with
+  | nil => intro _; rfl
+  | cons t ts ih => intro earlier; simp only [List.map_cons, observeAll, observeOne, ih]
+
+theorem allInb {n : Nat} {l : List Val} (h : l.all (Val.inb n) = true) : ∀ x ∈ l, Val.inb n x = true := by
+  simpa [List.all_eq_true] using h
+
+theorem evalAll_observe {h0 : Heap} (hc : closedHeap h0 = true) (env : Env)
+    {f : Heap → Val → Except Err Val × Heap} {ref : Val → RefRes} (hf : EvalOK h0 f ref)
+    (targets : List Val) (ht : ∀ t ∈ targets, Val.inb h0.length t = true) (h : Heap) (c : Ctx h0 h) :
+    Frame h.length h (evalAll f targets h).2 ∧
+      observeAll env h0.length (evalAll f targets h).2 [] (evalAll f targets h).1 =
+        targets.map (fun t => showRef env h0 (ref t)) :=
+  ⟨evalAll_frame hf targets ht h c,
+   observeAll_spec hc env hf targets ht h c [] (by simp) _ (Frame.rfl' (Nat.le_refl _))⟩
+
+/-- **the whole run**: nothing that existed changes, and an observer sees exactly the reference -/
+theorem runProg_spec (env : Env) (hwf : WF env = true) (h0 : Heap) (hc : closedHeap h0 = true)
+    (p : Prog) (hp : ∀ k ∈ progVals p, Val.inb h0.length k = true) (hinit : p.initAllocates = true)
+    (targets : List Val) (ht : ∀ t ∈ targets, Val.inb h0.length t = true) :
+    Frame h0.length h0 (runProg env p targets h0).2 ∧
+      observeAll env h0.length (runProg env p targets h0).2 [] (runProg env p targets h0).1 =
+        targets.map (expectR env h0 p) := by
+  obtain ⟨hcatch, hchain, _⟩ := WF_parts hwf
+  have c0 := Ctx.base hc
+  cases p with
+  | fold sub i op =>
+    have hs : ∀ k ∈ sub, Val.inb h0.length k = true := fun k hk => hp k (by simp [progVals, hk])
+    exact evalAll_observe hc env (ref := refSpec env h0 (mkFold sub i op))
+      (fun h t c ht' => glomit_spec c env hcatch (mkFold sub i op) hinit hs ht') targets ht h0 c0
+  | sum sub i =>
+    have hs : ∀ k ∈ sub, Val.inb h0.length k = true := fun k hk => hp k (by simp [progVals, hk])
+    exact evalAll_observe hc env (ref := refSpec env h0 (mkSum sub i))
+      (fun h t c ht' => glomit_spec c env hcatch (mkSum sub i) hinit hs ht') targets ht h0 c0
+  | count =>
+    exact evalAll_observe hc env (ref := refSpec env h0 mkCount)
+      (fun h t c ht' => glomit_spec c env hcatch mkCount rfl (by simp [mkCount]) ht') targets ht h0 c0
+  | flatten sub i =>
+    have hs : ∀ k ∈ (mkFlatten sub i).sub, Val.inb h0.length k = true := by
+      intro k hk; apply hp; cases i <;> simpa [progVals, mkFlatten] using hk
+    have hi : (mkFlatten sub i).init.allocates = true := by
+      cases i with
+      | lazy => rfl
+      | init j => exact hinit
+    exact evalAll_observe hc env (ref := refSpec env h0 (mkFlatten sub i))
+      (fun h t c ht' => glomit_spec c env hcatch (mkFlatten sub i) hi hs ht') targets ht h0 c0
+  | flattenFn sub i l =>
+    have hs : ∀ k ∈ sub, Val.inb h0.length k = true := fun k hk => hp k (by simp [progVals, hk])
+    exact evalAll_observe hc env (ref := refFlattenFn env h0 sub i l)
+      (fun h t c ht' => flattenFn_spec c env hchain hcatch sub i l hinit hs ht') targets ht h0 c0
+  | mergeFn sub i op =>
+    have hs : ∀ k ∈ sub, Val.inb h0.length k = true := fun k hk => hp k (by simp [progVals, hk])
+    exact evalAll_observe hc env (ref := refMerge env h0 sub i op)
+      (fun h t c ht' => mergeFn_spec c env hcatch sub i op hinit hs ht') targets ht h0 c0
+  | merge sub i op =>
+    have hs : ∀ k ∈ sub, Val.inb h0.length k = true := fun k hk => hp k (by simp [progVals, hk])
+    have hm := mkMerge_spec h0 sub i op hinit h0
+    simp only [runProg, expectR, refProg, refMerge]
+    rcases hmk : mkMerge sub i op h0 with ⟨r, h1⟩
+    rw [hmk] at hm
+    simp only at hm
+    cases hro : refMergeOp h0 i op with
+    | error e =>
+      rw [hro] at hm
+      simp only [hm.2]
+      have hexp : List.map (expectR env h0 (Prog.merge sub i op)) targets =
+          targets.map (fun _ => errR env e) :=
+        List.map_congr_left (fun t _ => by simp [expectR, refProg, refMerge, hro, showRef])
+      rw [hexp]
+      exact ⟨hm.1, observeAll_errors env h0.length h1 e targets []⟩
+    | ok o =>
+      rw [hro] at hm
+      simp only [hm.2]
+      have c1 : Ctx h0 h1 := ⟨hc, hm.1⟩
+      have := evalAll_observe hc env (ref := refSpec env h0 ⟨.merge, sub, i, o, false⟩)
+        (fun h t c ht' => glomit_spec c env hcatch ⟨.merge, sub, i, o, false⟩ hinit hs ht') targets ht h1 c1
+      have hexp : List.map (expectR env h0 (Prog.merge sub i op)) targets =
+          targets.map (fun t => showRef env h0 (refSpec env h0 ⟨.merge, sub, i, o, false⟩ t)) :=
+        List.map_congr_left (fun t _ => by simp [expectR, refProg, refMerge, hro])
+      rw [hexp]
+      exact ⟨hm.1.trans hm.1.1 this.1, this.2⟩
+
+theorem ofSV_not_same (x : Except Err SV) (v : Val) : RefRes.ofSV x ≠ .same v := by
+  cases x with
+  | error e => simp [RefRes.ofSV]
+  | ok sv => cases sv <;> simp [RefRes.ofSV]
+
+theorem withInit_not_same (h0 : Heap) (i : Init) (f : SV → Except Err SV) (v : Val) :
+    withInit h0 i f ≠ .same v := by
+  unfold withInit
+  cases initSV h0 i with
+  | none => simp
+  | some sv => exact ofSV_not_same _ v
+
+/-- a spec object never hands back an input: its reference result is an error, an immediate
+    or a NEW object -/
+theorem refSpec_not_same (env : Env) (h0 : Heap) (s : FoldSpec) (t v : Val) :
+    refSpec env h0 s t ≠ .same v := by
+  unfold refSpec
+  cases refItems env h0 s.sub t with
+  | error e => simp
+  | ok items =>
+    simp only [refKind]
+    cases s.kind with
+    | fold => exact withInit_not_same _ _ _ v
+    | merge => exact withInit_not_same _ _ _ v
+    | flatten =>
+      simp only
+      split
+      · simp
+      · exact withInit_not_same _ _ _ v
+
 end Glom.C15
